@@ -20,6 +20,7 @@ import (
 	"fmt"
 	"math"
 	"reflect"
+	"runtime"
 	"strconv"
 	"strings"
 	"testing"
@@ -1072,7 +1073,42 @@ func c09NewCase(r *verifkit.Rand, quirk bool) *c09Case {
 	return c
 }
 
+// c09HostileAlloc: the allocation clause is about hostile input, which mostly *fails* to decode. Inputs that declare
+// the largest lengths their prefixes can hold (all-ones bytes) with almost no data behind them must be refused without
+// the decoder having allocated for the declared length: the bytes allocated during the call (runtime.MemStats) stay
+// within a small constant plus a multiple of the input length.
+func c09HostileAlloc(out *verifkit.Out, r *verifkit.Rand, c *c09Case) {
+	if strings.Contains(c.flags, "zw") && c09Hangs >= 2 {
+		return
+	}
+	ff := bytes.Repeat([]byte{0xff}, 12)
+	inputs := [][]byte{ff, append([]byte{0, 0}, ff...), append(r.Bytes(3), ff...), append([]byte{0x7f}, ff...)}
+	for _, data := range inputs {
+		out.Count("mode:hostile-alloc")
+		var m0, m1 runtime.MemStats
+		runtime.ReadMemStats(&m0)
+		var pan string
+		var ok bool
+		pan = verifkit.Guard(func() {
+			p := reflect.New(c.rt)
+			_, err := UnmarshalWithParams(data, p.Interface(), c.params)
+			ok = err == nil
+		})
+		runtime.ReadMemStats(&m1)
+		delta := m1.TotalAlloc - m0.TotalAlloc
+		op := c.opDec(data)
+		if pan != "" {
+			c09Fail(out, "panic<"+c09PanicClass(pan)+">", c.flags, op, pan)
+			continue
+		}
+		if limit := uint64(256<<10 + 4096*len(data)); delta > limit {
+			c09Fail(out, "alloc", c.flags, op, fmt.Sprintf("%d bytes allocated while decoding %d bytes of input (accepted=%v)", delta, len(data), ok))
+		}
+	}
+}
+
 func c09Run(out *verifkit.Out, r *verifkit.Rand, c *c09Case, nvals int) {
+	c09HostileAlloc(out, r, c)
 	out.Count("types")
 	if c.clean {
 		out.Count("types:clean")
